@@ -836,6 +836,12 @@ def bytesmut_split_all(ex, m, a, fr, dest):
     return out
 
 
+@M.model(r'(?:bytes::)?BytesMut::clear')
+def bytesmut_clear(ex, m, a, fr, dest):
+    deref(a[0]).segs = []
+    return UNIT
+
+
 @M.model(r'(?:bytes::)?BytesMut::unsplit|(?:bytes::)?BytesMut::extend_from_slice|<(?:bytes::)?BytesMut as Extend<.*>>::extend::<.*>')
 def bytesmut_append(ex, m, a, fr, dest):
     b = deref(a[0])
